@@ -17,7 +17,7 @@ def jobs(ctx, props):
     quick = ctx.quick()
     for name, desc in E.items():
         for targets in (['A'], ['A', 'B']):
-            if quick and len(targets) == 2 and name in ('diamond', 'join', 'task-analysis-task'):
+            if quick and len(targets) == 2 and name in ('diamond', 'join', 'task-analysis-task', 'shared-input'):
                 reqs = 1
             else:
                 reqs = 2
@@ -37,6 +37,9 @@ def jobs(ctx, props):
         out.append((name + '/explicit+reload', E[name], ['A'], props,
                     {'reqs': 2, 'mode': 'explicit', 'max_workers': 1 if quick else 2, 'outcomes': ('success',),
                      'revs': ('r1',), 'life': 'reload', 'max_life': 1 if quick else 2}))
+    # one transient data-base outage during a dispatch (see C04)
+    for name in ('single', 'pair'):
+        out.append((name + '/db-outage', E[name], ['A', 'B'], props, {'reqs': 2, 'faults': 1}))
     out += schedcheck.timer_jobs(props, quick)
     return out
 
